@@ -619,9 +619,12 @@ Rock::Rebuild::finalizeOrThrow(const sfileno fileNo, LoadingEntry &le)
     /* no hodgepodge entries: one entry - one full chain and no leftovers */
     Must(slotId < 0);
     Must(mappedSize == le.size);
+    Must(le.anchored()); // no entries without their inode (and its metadata)
 
     if (!anchor.basics.swap_file_sz)
         anchor.basics.swap_file_sz = le.size;
+    else
+        Must(anchor.basics.swap_file_sz == le.size); // no truncated entries
     EBIT_SET(anchor.basics.flags, ENTRY_VALIDATED);
     le.state(LoadingEntry::leLoaded);
     sd->map->closeForWriting(fileNo);
